@@ -456,3 +456,20 @@ example : swt exVals [10, 11, 12] (.int 2) [2] none .tabular = .error .value := 
 -- the recursive chain feeds its own outputs back (gapped horizon [1,3], three regressor calls)
 example : (run exVals exReg .recursive .tabular (.int 2) 5 [10, 11, 12, 13] none (some [1, 3]) .no none none).2 =
     .ok [(9, 63), (11, 416)] := by rfl
+-- direct with one exogenous column, step 2 only; dirrec and multioutput on a gapped horizon
+example : (run exVals exReg .direct .panel (.int 2) 0 [10, 11, 12, 13, 14]
+    (some [[100], [101], [102], [103], [104]]) (some [2]) .no none none).2 = .ok [(6, 793)] := by rfl
+example : (run exVals exReg .dirrec .tabular (.int 2) 0 [10, 11, 12, 13, 14, 15] none (some [1, 3]) .no none none).2 =
+    .ok [(6, 69), (8, 280)] := by rfl
+example : (run exVals exReg .multioutput .tabular (.int 2) 0 [10, 11, 12, 13, 14, 15] none (some [1, 3]) .no none none).2 =
+    .ok [(6, 54), (8, 58)] := by rfl
+-- after an update without refit the window is [20, 30] and the label is counted from the new cutoff 5
+example : (run exVals exReg .direct .tabular (.int 2) 0 [10, 11, 12, 13] none (some [1])
+    (.batch [20, 30] none false) none none).2 = .ok [(6, 105)] := by rfl
+-- a non-finite last window forecasts NaN (outside `FiniteLastWindow`)
+example : (run exVals exReg .direct .tabular (.int 2) 0 [10, 11, 12, -1] none (some [1]) .no none none).2 =
+    .ok [(4, -1)] := by rfl
+-- hypotheses of the rejection theorems are satisfiable
+example : ([10, 11, 12] : List Int).length < 2 + (2 : Int).toNat := by decide
+
+end SkVerif.C05
